@@ -14,8 +14,8 @@ structure Tok where
   stripped : Bool := false
   deriving Repr, DecidableEq
 
-def keywords : List Bytes := [b!"select", b!"from", b!"where", b!"set", b!"group", b!"rorder",
-  b!"order", b!"interval", b!"limit", b!"outfile", b!"logformat"]
+/-- the keyword set, regenerated from internal/mapr/token.go on every run -/
+def keywords : List Bytes := Facts.queryKeywordsBytes
 
 def Tok.isKeyword (t : Tok) : Bool := t.bare && keywords.contains (lowerKey t.str)
 
@@ -67,11 +67,16 @@ structure SelCond where
   op : AggOp
   deriving Repr, DecidableEq
 
+def aggOfGoName (v : String) : Option AggOp :=
+  if v = "Count" then some .count else if v = "Sum" then some .sum else if v = "Min" then some .min
+  else if v = "Max" then some .max else if v = "Last" then some .last else if v = "Avg" then some .avg
+  else if v = "Len" then some .len else none
+
+/-- the `switch agg` of makeSelectConditions, regenerated from the source on every run -/
 def aggOfName (n : Bytes) : Option AggOp :=
-  if n = b!"count" then some .count else if n = b!"sum" then some .sum
-  else if n = b!"min" then some .min else if n = b!"max" then some .max
-  else if n = b!"last" then some .last else if n = b!"avg" then some .avg
-  else if n = b!"len" then some .len else none
+  match (Facts.selectAggNamesBytes.zip Facts.selectAggValues).find? (·.1 = n) with
+  | some (_, v) => aggOfGoName v
+  | none => none
 
 def LPAR : UInt8 := 40
 def RPAR : UInt8 := 41
@@ -110,15 +115,20 @@ def QOp.isFloat : QOp → Bool
   | .fEq | .fNe | .fLt | .fLe | .fGt | .fGe => true
   | _ => false
 
-def whereOpOf (s : Bytes) : Option QOp :=
-  if s = b!"==" then some .fEq else if s = b!"!=" then some .fNe else if s = b!"<" then some .fLt
-  else if s = b!"<=" then some .fLe else if s = b!"=<" then some .fLe else if s = b!">" then some .fGt
-  else if s = b!">=" then some .fGe else if s = b!"=>" then some .fGe else if s = b!"eq" then some .strEq
-  else if s = b!"ne" then some .strNe else if s = b!"contains" then some .contains
-  else if s = b!"lacks" then some .notContains else if s = b!"ncontains" then some .notContains
-  else if s = b!"hasprefix" then some .hasPrefix else if s = b!"nhasprefix" then some .notHasPrefix
-  else if s = b!"hassuffix" then some .hasSuffix else if s = b!"nhassuffix" then some .notHasSuffix
+def qopOfGoName (v : String) : Option QOp :=
+  if v = "FloatEq" then some .fEq else if v = "FloatNe" then some .fNe else if v = "FloatLt" then some .fLt
+  else if v = "FloatLe" then some .fLe else if v = "FloatGt" then some .fGt else if v = "FloatGe" then some .fGe
+  else if v = "StringEq" then some .strEq else if v = "StringNe" then some .strNe
+  else if v = "StringContains" then some .contains else if v = "StringNotContains" then some .notContains
+  else if v = "StringHasPrefix" then some .hasPrefix else if v = "StringNotHasPrefix" then some .notHasPrefix
+  else if v = "StringHasSuffix" then some .hasSuffix else if v = "StringNotHasSuffix" then some .notHasSuffix
   else none
+
+/-- the `switch whereOp` of makeWhereConditions, regenerated from the source on every run -/
+def whereOpOf (s : Bytes) : Option QOp :=
+  match (Facts.whereOpNamesBytes.zip Facts.whereOpValues).find? (·.1 = s) with
+  | some (_, v) => qopOfGoName v
+  | none => none
 
 structure WhereCond where
   lType : FType
